@@ -390,6 +390,24 @@ let milu_rt args =
       "OK " ^ hex (x_rt_print t) ^ " " ^ sexp (x_rt_denote t)
   | _ -> "BAD-ARGS"
 
+(* idle_check <period_s> <client_delta_ms> <server_delta_ms> (signed decimal) *)
+let idle_check args =
+  match args with
+  | [ p; dc; ds ] ->
+      let sg s = let v = int_of_string s in (v <= 0, n_of_int (abs v)) in
+      let (cp, cv) = sg dc and (sp, sv) = sg ds in
+      let ((tc, ts), cl) = x_idle_check (n_of_int (int_of_string p)) cp cv sp sv in
+      Printf.sprintf "OK c=%b s=%b close=%b" tc ts cl
+  | _ -> "BAD-ARGS"
+
+(* idle_period <tcp|udp> <configured seconds or -> *)
+let idle_period args =
+  match args with
+  | [ k; v ] ->
+      let o = if v = "-" then None else Some (n_of_int (int_of_string v)) in
+      string_of_int (int_of_n (if k = "tcp" then x_tcp_period o else x_udp_period o))
+  | _ -> "BAD-ARGS"
+
 (* ---- milu evaluator ------------------------------------------------------------------ *)
 
 exception Opaque
@@ -619,6 +637,8 @@ let run_line ovf line =
         | "reload_seq" -> reload_seq args
         | "milu_parse" -> milu_parse args
         | "milu_rt" -> milu_rt args
+        | "idle_check" -> idle_check args
+        | "idle_period" -> idle_period args
         | "milu_eval" -> milu_eval args
         | "milu_wf" -> (match args with
             | [ h ] -> (match x_milu_parse (unhex h) with POk (e, _) -> if x_wf_lfb e then "WF" else "NOT-WF" | _ -> "SYNTAX")
